@@ -114,6 +114,11 @@ func Start(id string) *Check {
 		c.Root = "/verif"
 	}
 	c.loadKnown()
+	// VERIF_OUT_ROOT redirects evidence and replays (self-validation runs
+	// against a scratch checkout must not overwrite the real evidence).
+	if o := os.Getenv("VERIF_OUT_ROOT"); o != "" {
+		c.Root = o
+	}
 	fmt.Printf("[%s] tier=%s seed=%d\n", c.ID, c.Tier, c.Seed)
 	return c
 }
